@@ -3,7 +3,7 @@
 use super::{run_built, standard_components, Built, SERVER_IP};
 use crate::entry::{Call, Entry};
 use crate::gen;
-use crate::models::minecraft::{self as mm, McHost, McTcpServer, McUdpServer, Variant, ORDER};
+use crate::models::minecraft::{McHost, McTcpServer, McUdpServer, Variant, ORDER};
 use crate::prop::{CaseOut, Prop, Tier, Violation};
 use crate::scenarios::gen_mc_settings;
 use crate::tape::{Tape, CFG};
